@@ -68,6 +68,27 @@ let print_log (log : (nat * Prog.event) list) =
       | Prog.ESolve (a, r) -> ev (Printf.sprintf "%d solve %s => %s" k (lits_s a) (answer_s r)))
     log
 
+(* validity of the recorded answers on the model's own log: every Sat model must satisfy all clauses
+   of its session so far and the assumptions of the call (the hypothesis [valid_oracle] of the
+   solver theorems, Sat side; the Unsat side needs a solver and is confirmed by the brute-force
+   oracle on small cases only) *)
+let validate_log (log : (nat * Prog.event) list) =
+  let sessions : (int, Cnf.clause list) Hashtbl.t = Hashtbl.create 8 in
+  let ok = ref 0 and bad = ref 0 and unsat = ref 0 in
+  Stdlib.List.iter
+    (fun (k, e) ->
+      let k = int_of_nat k in
+      match e with
+      | Prog.ENew -> Hashtbl.replace sessions k []
+      | Prog.EClause c -> Hashtbl.replace sessions k (c :: (try Hashtbl.find sessions k with Not_found -> []))
+      | Prog.ESolve (a, Cnf.Sat m) ->
+          let cl = try Hashtbl.find sessions k with Not_found -> [] in
+          if Cnf.valid_sat cl a m then incr ok else incr bad
+      | Prog.ESolve (_, Cnf.Unsat) -> incr unsat
+      | _ -> ())
+    log;
+  out (Printf.sprintf "val sat_ok=%d sat_bad=%d unsat=%d" !ok !bad !unsat)
+
 let sem_of = function
   | "GR" -> AF.GR | "CO" -> AF.CO | "PR" -> AF.PR | "ST" -> AF.ST
   | "SST" -> AF.SST | "STG" -> AF.STG | "ID" -> AF.ID | _ -> failwith "sem"
@@ -117,11 +138,14 @@ let run_one (c : case) (f : nat Store.fw) sem q cert enc (labels : int list) (sc
           Prog.bind (Solvers.run_query oracle (nat_of_int !thr) fuel sem pq pc enc g pal) (fun _ -> main) in
     let r = prog (Prog.init_st Prog.CadicalLike) in
     print_log (Prog.log_of r);
-    match r with
+    (match r with Prog.Done _ | Prog.Abort _ -> () | _ -> ());
+    let finish () = validate_log (Prog.log_of r) in
+    (match r with
     | Prog.Done (o, _) -> out (outcome_line f o)
     | Prog.Abort _ -> out "panic abort-unknown"
     | Prog.Panic _ -> out "panic model-panic"
-    | Prog.OutOfFuel _ -> out "outoffuel"
+    | Prog.OutOfFuel _ -> out "outoffuel");
+    finish ()
   end
 
 let run_case (c : case) =
